@@ -713,8 +713,16 @@ func packagePrepareWalkFn(root string, ignoreRules *ignorefiles.Ruleset) filepat
 		// package: even if it currently points into this (temporary) directory
 		// it will dangle once the directory is renamed or the bundle is moved.
 		if info.Mode()&os.ModeSymlink != 0 {
-			if target, err := os.Readlink(absPath); err == nil && filepath.IsAbs(target) {
+			target, err := os.Readlink(absPath)
+			if err == nil && filepath.IsAbs(target) {
 				return fmt.Errorf("module package path %q is a symlink with an absolute target", relPath)
+			}
+			// The same goes for a relative target that climbs out of the package
+			// and comes back in by the name this directory happens to have while
+			// it is being prepared ("../.tmp-123/x"): it resolves now and dangles
+			// after the rename.
+			if err == nil && !filepath.IsLocal(filepath.Join(filepath.Dir(relPath), target)) {
+				return fmt.Errorf("module package path %q is symlink traversing out of the package root", relPath)
 			}
 		}
 
